@@ -63,8 +63,12 @@ func runHistories(c *core.Ctx, which string) {
 			}
 		}
 	}
-	if which == "C02" && c.Want("named/shared-source-reverted-after-sibling-build") {
-		cases = append([]string{"named/shared-source-reverted-after-sibling-build"}, cases...)
+	if which == "C02" {
+		for _, nm := range []string{"named/shared-source-edited-back-after-sibling-build", "named/shared-source-reverted-after-sibling-build"} {
+			if c.Want(nm) {
+				cases = append([]string{nm}, cases...)
+			}
+		}
 	}
 	workers := runtime.NumCPU() - 2
 	if workers > 14 {
@@ -102,14 +106,20 @@ def b(self):
 	}
 	build("//:a")
 	build("//:b")
-	os.Remove(src)                                  // the shared source disappears
+	how := "rm shared.txt"
+	if id == "named/shared-source-edited-back-after-sibling-build" {
+		os.WriteFile(src, []byte("content Y\n"), 0o644) // the shared source is edited
+		how = "edit shared.txt X -> Y"
+	} else {
+		os.Remove(src) // the shared source disappears
+	}
 	build("//:a")                                   // only the sibling is built meanwhile
-	os.WriteFile(src, []byte("content X\n"), 0o644) // ... and comes back unchanged
+	os.WriteFile(src, []byte("content X\n"), 0o644) // ... and the source comes back as it was
 	ex := build("//:b")
 	c.Eval(id)
 	c.Distinct(id + "/b")
 	if len(ex) > 0 {
-		c.Violation(id, id, "spurious", map[string]any{"executed": ex, "history": []string{"build //:a", "build //:b", "rm shared.txt", "build //:a", "restore shared.txt (same content)", "build //:b -> //:b executes although its source has the content of its last execution"}})
+		c.Violation(id, id, "spurious", map[string]any{"executed": ex, "history": []string{"build //:a", "build //:b", how, "build //:a", "shared.txt back to its old content", "build //:b -> //:b executes although its source has the content of its last execution"}})
 	}
 }
 
